@@ -102,14 +102,17 @@ def run(tier, seed, drv):
         SC.check_run(scn, base, drv, res, monitors_on=(), corr=("inputs", "ticks"), case_extra={"bus": "sync"})
         for j in range((6 if scn.get("stims") else 3) if tier == "quick" else (12 if scn.get("stims") else 6)):
             sd = rng.randrange(1 << 30)
-            run_ = run_scenario(scn, bus="held", seed=sd)
+            # one schedule in three runs on tickit's own Kafka state interface (consumer loop, YAML round trip of every
+            # message) over an in-process broker with the contract semantics
+            hb = "kafka" if j % 3 == 2 else "held"
+            run_ = run_scenario(scn, bus=hb, seed=sd)
             res.case(SC.scn_key(scn) + str(sd), nontrivial=len(run_["trace"].of("update")) > len(S.devices(scn)))
-            res.count("sampled-orders")
+            res.count("sampled-orders" + ("-kafka-interface" if hb == "kafka" else ""))
             if run_["result"][0] != "ok":
-                res.violate(V("run-did-not-complete", str(run_["result"]), site="run"), {"scenario": scn, "bus": "held", "seed": sd})
+                res.violate(V("run-did-not-complete", str(run_["result"]), site="run"), {"scenario": scn, "bus": hb, "seed": sd})
                 continue
-            if compare_obs(base, run_, f"sync vs held seed {sd}", scn, res, {"bus": "held", "held_seed": sd}):
-                SC.check_run(scn, run_, drv, res, monitors_on=(), corr=("inputs", "ticks"), case_extra={"bus": "held", "held_seed": sd})
+            if compare_obs(base, run_, f"sync vs {hb} seed {sd}", scn, res, {"bus": hb, "held_seed": sd}):
+                SC.check_run(scn, run_, drv, res, monitors_on=(), corr=("inputs", "ticks"), case_extra={"bus": hb, "held_seed": sd})
     res.rule = (f"(a) flat wirings of 2-{4 if tier == 'quick' else 5} components, 2 ticks: every delivery order of the delaying bus enumerated by stateless DFS "
                 f"(cut at {limit} orders per wiring); (b) generated flat/nested simulations + corpus under the synchronous bus and 3-6 seeded delaying "
                 "schedules; per-device (time, inputs) sequences compared pairwise and with the Lean model; distinct = (scenario, schedule)")
@@ -125,6 +128,6 @@ def replay(payload, drv):
         from buses import PrefixChooser
         other = run_scenario(scn, bus="held", chooser=PrefixChooser(c["prefix"]))
     else:
-        other = run_scenario(scn, bus="held", seed=c.get("held_seed", 0))
+        other = run_scenario(scn, bus=c.get("bus", "held") if c.get("bus") in ("held", "kafka") else "held", seed=c.get("held_seed", 0))
     compare_obs(base, other, "replay", scn, res, {})
     return {"violations": [v["record"] for v in res.violations]}
